@@ -36,6 +36,8 @@ def unify(t1, t2):
         return T.Ref('$any', True)
     if {t1.key, t2.key} == {'int', 'bool'}:
         return T.Int
+    if 'atom' in (t1.key, t2.key) and {t1.key, t2.key} <= {'atom', 'int', 'bool'}:
+        return T.Atom
     if {t1.key, t2.key} == {'int', 'real'}:
         return T.Real
     raise Unsupported('cannot unify types %s and %s' % (t1, t2))
@@ -68,6 +70,10 @@ def coerce(v, t):
         return SV(t, t.some(coerce(v, t.t).z))
     if t.reflike and v.t.reflike:
         return SV(t, v.z)
+    if t.key == 'atom' and v.t.key in ('int', 'bool'):
+        # an integer stored where only identity matters: boxed injectively away from the other atoms (negative ids)
+        z = v.z if v.t.key == 'int' else z3.If(v.z, z3.IntVal(1), z3.IntVal(0))
+        return SV(t, -1 - z3.If(z >= 0, 2 * z, -2 * z - 1))
     if t.key == 'int' and v.t.key == 'bool':
         return SV(T.Int, z3.If(v.z, z3.IntVal(1), z3.IntVal(0)))
     if t.key == 'real' and v.t.key == 'int':
